@@ -192,14 +192,12 @@ def entry_points(nfc, clf, present_polls):
             def term():
                 n[0] += 1
                 return n[0] > 3
-            import nfc.tag
-            orig = nfc.tag.activate
-            nfc.tag.activate = lambda c, t: FakeTag(c)
-            try:
-                clf.connect(rdwr={"on-connect": (lambda tag: release), "beep-on-connect": beep, "iterations": 1,
-                                  "interval": 0.0, "targets": ["106A"]}, terminate=term)
-            finally:
-                nfc.tag.activate = orig
+            # nfc.tag.activate is replaced by `fake_activate` for the whole dynamic phase (see run()): swapping a
+            # module attribute per call is not thread-safe (a thread still inside connect() would get the real
+            # tag activation back when another thread restores it - a false alarm of this harness on a fresh
+            # restore, DESIGN 11.2)
+            clf.connect(rdwr={"on-connect": (lambda tag: release), "beep-on-connect": beep, "iterations": 1,
+                              "interval": 0.0, "targets": ["106A"]}, terminate=term)
         finally:
             if dev is not None:
                 dev.tag_present = False
@@ -215,6 +213,7 @@ def entry_points(nfc, clf, present_polls):
                                                                       sel_res=bytearray(b"\x00")),
                           "timeout": 0.01}, terminate=term)
 
+    entry_points.fake_activate = lambda c, t: FakeTag(c)
     return {
         "sense_a": lambda: clf.sense(nfc.clf.RemoteTarget("106A"), iterations=2, interval=0.0),
         "sense_abf": lambda: clf.sense(nfc.clf.RemoteTarget("106A"), nfc.clf.RemoteTarget("106B"),
@@ -317,6 +316,8 @@ def run(ck):
         def __getattr__(self, name):
             return getattr(real_time, name)
     nfc.clf.time = FastClock()
+    import nfc.tag
+    orig_activate = nfc.tag.activate
     static_methods = {re.sub(r" \(.*", "", s[2]) for s in tr.sites} | {"connect"}
     seen = set()
     try:
@@ -326,6 +327,9 @@ def run(ck):
         clf.lock = ylock
         clf.open("fake")
         eps = entry_points(nfc, clf, present_polls=3)
+        # tag activation is not the frontend: connect(rdwr=...) gets a stub tag whose presence check goes through
+        # clf.exchange; installed once, before any thread starts, removed after the last thread has been joined
+        nfc.tag.activate = entry_points.fake_activate
         # single-threaded: every entry point
         for name, fn in eps.items():
             before = len(rec.calls)
@@ -501,6 +505,7 @@ def run(ck):
     finally:
         nfc.clf.device.connect = orig_connect
         nfc.clf.time = real_time
+        nfc.tag.activate = orig_activate
 
     for kind, name in rec.violations:
         ck.fail(kind + ":" + name, "driver method %s entered %s" % (name, kind.replace("-", " ")),
